@@ -520,6 +520,12 @@ func fromCtyTuple(val cty.Value, target reflect.Value, path cty.Path) error {
 
 	case reflect.Struct:
 
+		if bigFloatType.ConvertibleTo(target.Type()) || bigIntType.ConvertibleTo(target.Type()) {
+			// These are structs only as an implementation detail: they
+			// represent numbers, so a tuple can never be decoded into them.
+			return path.NewErrorf("number value is required")
+		}
+
 		elemTypes := val.Type().TupleElementTypes()
 		fieldCount := target.Type().NumField()
 
